@@ -443,8 +443,11 @@ do_frame(Ctx& x, char who)
     if (who == 'A') {
         x.a_blocked_in_frame = false;
         if (r != Device_Ok && x.runs.size() != runs_at_call) {
+            // the case ends here: the skipped stop that follows leaves a streamer behind that the next SET
+            // pulls the buffers away from (a sanitizer report has no signature to attribute)
             x.a_stale_failure = true;
             x.c.cls(CL_STALE_FAILURE);
+            C18_FAIL(x, "frame-call-failed-across-restart", "err", "-");
         }
     }
     bool delivered = r == Device_Ok && info.hardware_frame_id != SENT;
